@@ -1,1 +1,280 @@
-/-! Property theorems for C13 (stub: none yet). -/
+import TxdbusModel.Proofs.Bus.Semantics
+import TxdbusModel.Proofs.Bus.Belief
+import TxdbusModel.Bus.NamesPre
+/-!
+# Property C13 — built-in bus: a name has one live owner; ownership follows request flags
+
+Code model `Txdbus.Bus` (`Bus/Names.lean`, mirrors txdbus/bus.py after fixes C13-01..03),
+specification `Txdbus.Bus.Spec` (`Bus/SpecNames.lean`).  All theorems are about *every* state a
+fresh bus can reach by *any* finite history of connects, disconnects, RequestName (any flag
+word), ReleaseName, GetNameOwner, ListQueuedOwners by any number of connections on any number
+of names (`Reachable`), and about every step from such a state.
+
+* `s.queue n`  — the queue of name `n` (connections, head = owner);  `s.owner n` its head;
+* `s.connected c` — `c` is a connection the bus knows;  `s.flag c n` — `c`'s own table entry.
+-/
+namespace Txdbus.Bus
+
+open Txdbus.Gen.C13Codes
+
+/-! ## 1. Invariants of every reachable state -/
+
+/-- Queues are duplicate-free, every queued connection is connected and has the name in its own
+table, no empty queue is stored, unique names are fresh. -/
+theorem inv_reachable {s : State} (h : Reachable s) : Inv s := inv_of_reachable h
+
+/-- The invariant is preserved by every successful step, whoever issues it. -/
+theorem inv_step {s s' : State} {op : Op} {evs : List Event} (hI : Inv s)
+    (h : step s op = .ok (s', evs)) : Inv s' := (step_refines hI h).1
+
+/-- A name has at most one owner, the owner is a connected client, it does not also wait in the
+queue, and everybody who waits is connected and waits once. -/
+theorem at_most_one_owner_and_alive {s : State} (h : Reachable s) (n : Name) :
+    (∀ a b, s.owner n = some a → s.owner n = some b → a = b) ∧
+    (∀ o, s.owner n = some o → s.connected o = true ∧ o ∉ (s.queue n).tail) ∧
+    (∀ c, c ∈ s.queue n → s.connected c = true ∧ (s.queue n).count c = 1) := by
+  have hI := inv_of_reachable h
+  refine ⟨?_, ?_, ?_⟩
+  · intro a b ha hb; rw [ha] at hb; exact Option.some.inj hb
+  · intro o ho
+    unfold State.owner at ho
+    cases hq : s.queue n with
+    | nil => rw [hq] at ho; cases ho
+    | cons x rest =>
+      rw [hq] at ho
+      simp only [List.head?_cons, Option.some.injEq] at ho
+      subst ho
+      refine ⟨hI.alive n x (by rw [hq]; simp), ?_⟩
+      have := hI.nodup n
+      rw [hq] at this
+      exact (List.nodup_cons.mp this).1
+  · intro c hc
+    refine ⟨hI.alive n c hc, ?_⟩
+    rw [(hI.nodup n).count]; simp [hc]
+
+/-- On a reachable state no operation of a connected caller makes Python raise
+(no KeyError / IndexError / AttributeError path is taken). -/
+theorem step_never_raises {s : State} (h : Reachable s) (op : Op)
+    (hc : ∀ c, op.caller = some c → s.connected c = true) :
+    ∃ s' evs, step s op = .ok (s', evs) := step_ok (inv_of_reachable h) op hc
+
+/-! ## 2. RequestName -/
+
+/-- The owner is replaced iff it allowed replacement (in its latest request) and the requester
+asked to replace; otherwise the requester waits (once, keeping its place if it already waited)
+iff it did not decline queueing; every other connection keeps its place; events and reply code
+are as listed in `RequestSemantics`. -/
+theorem request_semantics {s : State} (h : Reachable s) {c : Conn} (hc : s.connected c = true)
+    (n : Name) (w : Nat) :
+    ∃ s' evs, step s (.request c n w) = .ok (s', evs) ∧ RequestSemantics s c n w s' evs := by
+  have hI := inv_of_reachable h
+  obtain ⟨s', evs, h1, p⟩ := requestName_post hI hc n w
+  exact ⟨s', evs, h1, requestSemantics_of_post hI p⟩
+
+/-- The reply code states the caller's resulting relation to the name:
+owner (1 or 4) iff it now owns it, queued (2) iff it waits, refused (3) iff it neither owns nor waits. -/
+theorem reply_states_relation {s : State} (h : Reachable s) {c : Conn} {n : Name} {w : Nat}
+    {s' : State} {evs : List Event} (hs : step s (.request c n w) = .ok (s', evs)) :
+    ∃ code, evs.getLast? = some (.reply c code) ∧
+      ((code = nameAcquired ∨ code = nameAlreadyOwner) ↔ s'.owner n = some c) ∧
+      (code = nameInQueue ↔ (c ∈ s'.queue n ∧ s'.owner n ≠ some c)) ∧
+      (code = nameInUse ↔ c ∉ s'.queue n) := by
+  have hI := inv_of_reachable h
+  have hc := requestName_connected hs
+  obtain ⟨s1, ev1, h1, p⟩ := requestName_post hI hc n w
+  have : step s (.request c n w) = requestName s c n w := rfl
+  rw [this, h1] at hs
+  cases hs
+  exact reply_relation_of_post hI p
+
+/-! ## 3. ReleaseName and disconnect -/
+
+/-- After a release the caller neither owns nor waits; if it was the owner the longest-waiting
+connection is the new owner and is sent NameAcquired; codes released / non-existent / not-owner. -/
+theorem release_semantics {s : State} (h : Reachable s) {c : Conn} (hc : s.connected c = true)
+    (n : Name) :
+    ∃ s' evs, step s (.release c n) = .ok (s', evs) ∧ ReleaseSemantics s c n s' evs := by
+  have hI := inv_of_reachable h
+  obtain ⟨s', evs, code, h1, p⟩ := releaseName_post hI hc n
+  exact ⟨s', _, h1, releaseSemantics_of_post hI p⟩
+
+/-- After a disconnect the connection is in no queue of any name; wherever it was the owner the
+longest-waiting connection is the new owner and is sent NameAcquired; nothing else is sent. -/
+theorem disconnect_semantics {s : State} (h : Reachable s) {c : Conn} (hc : s.connected c = true) :
+    ∃ s' evs, step s (.disconnect c) = .ok (s', evs) ∧ DisconnectSemantics s c s' evs := by
+  have hI := inv_of_reachable h
+  obtain ⟨s', evs, h1, p⟩ := disconnect_post hI hc
+  exact ⟨s', evs, h1, disconnectSemantics_of_post hI p⟩
+
+/-- "... and is told so", over whole histories: a connection that tracks the NameAcquired /
+NameLost signals it receives (`told d n false (all events so far)`) believes it owns a name
+exactly when it is the owner - after every history from a fresh bus, for every connected
+client and every name. -/
+theorem signals_track_ownership {ops : List Op} {s : State} {evss : List (List Event)}
+    (h : run State.init ops = .ok (s, evss)) (d : Conn) (n : Name) (hd : s.connected d = true) :
+    told d n false evss.flatten = true ↔ s.owner n = some d :=
+  (bel_run inv_init bel_init h).owner_iff d n hd
+
+/-- Hence two connected clients never both believe they own the same name. -/
+theorem at_most_one_believer {ops : List Op} {s : State} {evss : List (List Event)}
+    (h : run State.init ops = .ok (s, evss)) (n : Name) (d1 d2 : Conn)
+    (h1 : s.connected d1 = true) (h2 : s.connected d2 = true)
+    (b1 : told d1 n false evss.flatten = true) (b2 : told d2 n false evss.flatten = true) :
+    d1 = d2 := by
+  have e1 := (signals_track_ownership h d1 n h1).mp b1
+  have e2 := (signals_track_ownership h d2 n h2).mp b2
+  rw [e1] at e2
+  exact Option.some.inj e2
+
+/-! ## 4. Lookups and listings agree with the table -/
+
+theorem queries_agree {s : State} (h : Reachable s) (c : Conn) (n : Name) :
+    step s (.getOwner c n) = .ok (s, [match s.owner n with
+                                       | some o => .replyOwner c o
+                                       | none => .replyNoOwner c]) ∧
+    step s (.listQueued c n) = .ok (s, [if s.queue n = [] then .replyNoOwner c
+                                        else .replyQueue c (s.queue n)]) := by
+  have hI := inv_of_reachable h
+  constructor
+  · show getNameOwner s c n = _
+    rw [getNameOwner_post hI c n]
+    unfold State.owner
+    cases s.queue n <;> rfl
+  · show listQueuedOwners s c n = _
+    rw [listQueuedOwners_post s c n]
+    cases s.queue n <;> rfl
+
+/-! ## 5. Refinement of the specification -/
+
+/-- Every successful step of the code model from a state satisfying the invariant is a step of
+`SpecNames` between the abstracted states, with the same replies and NameAcquired / NameLost
+signals in the same order (the NameOwnerChanged broadcasts, which the specification leaves open,
+dropped). -/
+theorem refines_spec {s s' : State} {op : Op} {evs : List Event} (hI : Inv s)
+    (h : step s op = .ok (s', evs)) :
+    Spec.Step (abs s) op (evs.filterMap Event.toSpec) (abs s') := (step_refines hI h).2
+
+/-- Whole histories from a fresh bus. -/
+theorem run_refines_spec {ops : List Op} {s : State} {evss : List (List Event)}
+    (h : run State.init ops = .ok (s, evss)) :
+    Spec.Run Spec.State.init ops (evss.map (fun evs => evs.filterMap Event.toSpec)) (abs s) := by
+  have := (run_refines inv_init h).2
+  rw [abs_init] at this
+  exact this
+
+/-! ## 6. Tables from the source, client side -/
+
+/-- The constants of txdbus.client / bus.py / error.py are those of the DBus specification. -/
+theorem codes_match_spec :
+    nameAcquired = Spec.ReqReply.primaryOwner.code ∧ nameInQueue = Spec.ReqReply.inQueue.code ∧
+    nameInUse = Spec.ReqReply.exists_.code ∧ nameAlreadyOwner = Spec.ReqReply.alreadyOwner.code ∧
+    nameReleased = Spec.RelReply.released.code ∧ nameNonExistent = Spec.RelReply.nonExistent.code ∧
+    nameNotOwner = Spec.RelReply.notOwner.code ∧
+    busMaskAllowReplacement = Spec.flagAllowReplacement ∧
+    busMaskReplaceExisting = Spec.flagReplaceExisting ∧ busMaskDoNotQueue = Spec.flagDoNotQueue ∧
+    clientMaskAllowReplacement = Spec.flagAllowReplacement ∧
+    clientMaskReplaceExisting = Spec.flagReplaceExisting ∧
+    clientMaskDoNotQueue = Spec.flagDoNotQueue ∧
+    clientSuccessCodes = [Spec.ReqReply.primaryOwner.code, Spec.ReqReply.alreadyOwner.code] ∧
+    failedReason nameInQueue = 1 ∧ failedReason nameInUse = 2 := by decide
+
+/-- The bus decodes exactly the three booleans `requestBusName` encoded. -/
+theorem client_flags_roundtrip (a r d : Bool) :
+    decodeFlags (clientFlags a r d) = { allow := a, replace := r, dnq := d } := by
+  cases a <;> cases r <;> cases d <;> decide
+
+/-- `requestBusName(..., errbackUnlessAcquired=True)` succeeds iff the caller owns the name after
+the request; otherwise it raises FailedToAcquireName carrying the reply code. -/
+theorem client_success_iff_owner {s : State} (h : Reachable s) {c : Conn} {n : Name} {w : Nat}
+    {s' : State} {evs : List Event} (hs : step s (.request c n w) = .ok (s', evs)) :
+    ∃ code, evs.getLast? = some (.reply c code) ∧
+      (clientOnResult true code = .ok code ↔ s'.owner n = some c) ∧
+      (clientOnResult true code = .error code ↔ s'.owner n ≠ some c) ∧
+      clientOnResult false code = .ok code := by
+  obtain ⟨code, hlast, hown, _, _⟩ := reply_states_relation h hs
+  refine ⟨code, hlast, ?_, ?_, rfl⟩
+  · rw [clientOnResult_ok_iff, hown]
+  · rw [clientOnResult_error_iff, hown]
+
+/-! ## 7. The hypotheses are satisfiable -/
+
+/-- Two connections, the second waits behind the first: a reachable state with a connected owner,
+a non-trivial queue and a caller to which every theorem above applies. -/
+example : ∃ s, Reachable s ∧ s.connected 1 = true ∧ s.connected 2 = true ∧ s.queue 0 = [1, 2] := by
+  have h := @reachable_of_run [.connect, .connect, .request 1 0 0, .request 2 0 0] State.init
+  refine ⟨_, h Reachable.init rfl, ?_, ?_, ?_⟩ <;> decide
+
+example : observe [.connect, .connect, .request 1 0 1, .request 2 0 0, .request 2 0 2] 0
+    = some ([2], [1, 2], [.nameLost 1 0, .nameAcquired 2 0, .ownerChanged 0 (some 1) (some 2), .reply 2 1]) := by
+  decide
+
+/-! ## 8. Pre-fix witnesses: the model of the code before C13-01..03 violates the property
+(`Pre.observe history name` = queue of the name, connected connections, events of the last step) -/
+
+/-- F18 (C13-01): a request with flags 0 for an owned name is answered IN_USE (3) and not queued. -/
+theorem prefix_request_without_replace_not_queued :
+    Pre.observe [.connect, .connect, .request 1 0 0, .request 2 0 0] 0
+      = some ([1], [1, 2], [.reply 2 3]) ∧
+    observe [.connect, .connect, .request 1 0 0, .request 2 0 0] 0
+      = some ([1, 2], [1, 2], [.reply 2 2]) := by decide
+
+/-- F19 (C13-02): a queued connection asking again is queued twice. -/
+theorem prefix_queued_twice :
+    Pre.observe [.connect, .connect, .request 1 0 0, .request 2 0 2, .request 2 0 2] 0
+      = some ([1, 2, 2], [1, 2], [.reply 2 2]) ∧
+    observe [.connect, .connect, .request 1 0 0, .request 2 0 2, .request 2 0 2] 0
+      = some ([1, 2], [1, 2], [.reply 2 2]) := by decide
+
+/-- (C13-02): a queued connection asking again with DO_NOT_QUEUE is refused but keeps waiting. -/
+theorem prefix_refused_but_still_queued :
+    Pre.observe [.connect, .connect, .request 1 0 0, .request 2 0 2, .request 2 0 6] 0
+      = some ([1, 2], [1, 2], [.reply 2 3]) ∧
+    observe [.connect, .connect, .request 1 0 0, .request 2 0 2, .request 2 0 6] 0
+      = some ([1], [1, 2], [.reply 2 3]) := by decide
+
+/-- F19 (C13-03): a queued connection releasing is answered NOT_OWNER (3) and keeps waiting. -/
+theorem prefix_queued_release_not_owner :
+    Pre.observe [.connect, .connect, .request 1 0 0, .request 2 0 2, .release 2 0] 0
+      = some ([1, 2], [1, 2], [.reply 2 3]) ∧
+    observe [.connect, .connect, .request 1 0 0, .request 2 0 2, .release 2 0] 0
+      = some ([1], [1, 2], [.reply 2 1]) := by decide
+
+/-- F19 (C13-03): a connection that disconnects while queued stays queued and becomes the owner
+when the owner releases: the owner is not connected, and NameAcquired goes to a dead transport. -/
+theorem prefix_dead_queued_client_becomes_owner :
+    Pre.observe [.connect, .connect, .request 1 0 0, .request 2 0 2, .disconnect 2, .release 1 0] 0
+      = some ([2], [1], [.nameLost 1 0, .nameAcquired 2 0, .reply 1 1]) ∧
+    observe [.connect, .connect, .request 1 0 0, .request 2 0 2, .disconnect 2, .release 1 0] 0
+      = some ([], [1], [.nameLost 1 0, .reply 1 1]) := by decide
+
+/-- Not a defect, documented: ReleaseName leaves the name in the caller's own table, so the table
+is a superset of (not exactly) the names whose queue contains the connection (`Inv.tabled` is
+one-directional).  The stale entry is never read (`refines_spec` holds with it). -/
+theorem stale_table_entry_witness :
+    (run State.init [.connect, .request 1 0 1, .release 1 0]).toOption.map
+      (fun r => (r.1.queue 0, r.1.flag 1 0)) = some ([], some true) := by decide
+
+end Txdbus.Bus
+
+#print axioms Txdbus.Bus.inv_reachable
+#print axioms Txdbus.Bus.inv_step
+#print axioms Txdbus.Bus.at_most_one_owner_and_alive
+#print axioms Txdbus.Bus.step_never_raises
+#print axioms Txdbus.Bus.request_semantics
+#print axioms Txdbus.Bus.reply_states_relation
+#print axioms Txdbus.Bus.release_semantics
+#print axioms Txdbus.Bus.disconnect_semantics
+#print axioms Txdbus.Bus.signals_track_ownership
+#print axioms Txdbus.Bus.at_most_one_believer
+#print axioms Txdbus.Bus.queries_agree
+#print axioms Txdbus.Bus.refines_spec
+#print axioms Txdbus.Bus.run_refines_spec
+#print axioms Txdbus.Bus.codes_match_spec
+#print axioms Txdbus.Bus.client_flags_roundtrip
+#print axioms Txdbus.Bus.client_success_iff_owner
+#print axioms Txdbus.Bus.prefix_request_without_replace_not_queued
+#print axioms Txdbus.Bus.prefix_queued_twice
+#print axioms Txdbus.Bus.prefix_refused_but_still_queued
+#print axioms Txdbus.Bus.prefix_queued_release_not_owner
+#print axioms Txdbus.Bus.prefix_dead_queued_client_becomes_owner
+#print axioms Txdbus.Bus.stale_table_entry_witness
